@@ -50,7 +50,7 @@ def gen_xatoms(rng, shape):
         atoms.insert(pos, ["N"])
         if rng.random() < 0.2:
             atoms.insert(rng.randrange(0, len(atoms) + 1), ["N"])
-    elif k < 0.6:
+    elif k < 0.6 and 0 not in shape:
         # a list / array in place of one axis entry (in range for every axis length >= 1)
         cand = [i for i, a in enumerate(atoms) if a[0] in ("I", "S")]
         what = rng.choice([[0], [0, 0], "a0", "a00"])
@@ -395,6 +395,7 @@ def run_progx(self, c):
             continue
         ok_ops += 1
         tags.append(f"{k}:ok")
+        b.meta_probe(res, g)
         if snap.changed():
             mut = mut or f"{what} changed its input image ({snap.changed()})"
         if pop != arg_before:
@@ -881,7 +882,7 @@ def gen_gspec(rng, bad):
 def generate(rng, tier):
     b = B()
     q = tier == "quick"
-    nprogx, nacm, ngrid, nxyz, nornt, nrt = (700, 500, 300, 250, 250, 400) if q else (9000, 6000, 3000, 2500, 2500, 4000)
+    nprogx, nacm, ngrid, nxyz, nornt, nrt = (1000, 500, 300, 250, 250, 400) if q else (9000, 6000, 3000, 2500, 2500, 4000)
     cases = []
     for _ in range(nprogx):
         cases.append({"kind": "progx", "gen": rng.randrange(1 << 40), "n": rng.choice([2, 3, 4, 5, 6, 8, 10])})
@@ -930,8 +931,83 @@ def generate(rng, tier):
         cases.append({"kind": "ornto", "A": gen_orth(rng).tolist(), "fix": rng.random() < 0.5})
     for _ in range(nrt):
         cases.append(gen_rt(rng))
+    for _ in range(100 if q else 1500):
+        cases.append(gen_xbool(rng))
     return cases
 
 
+# ----------------------------------------------------------------------
+# boolean selectors (oracle only: outside the model's index kinds)
+# ----------------------------------------------------------------------
+def gen_xbool(rng):
+    b = B()
+    spec = b.gen_image(rng, small=True)
+    shape = spec["shape"]
+    atoms = [b.gen_atom(rng, n) for n in shape]
+    if rng.random() < 0.4:
+        atoms = atoms[: rng.randrange(0, len(shape) + 1)]
+    elif rng.random() < 0.3:
+        i = rng.randrange(0, len(shape) + 1)
+        atoms = atoms[:i] + [["E"]] + atoms[i + rng.randrange(0, 2):]
+    what = rng.choice(["T", "F", "nT", "nF", "mask", "lmask", "m01", "score"])
+    pos = rng.randrange(0, len(atoms) + 1)
+    if what in ("mask", "lmask", "m01", "score") and atoms and rng.random() < 0.7:
+        atoms[min(pos, len(atoms) - 1)] = ["B", what]
+    else:
+        atoms.insert(pos, ["B", what])
+    return {"kind": "xbool", "img": spec, "atoms": atoms}
+
+
+def bool_index(atoms, shape):
+    """the index tuple: a Python / NumPy boolean, a boolean mask (array / list), a 0-1 integer list, a signed
+    score array used as a selector"""
+    out, ax = [], 0
+    for a in atoms:
+        if a[0] != "B":
+            out.extend(py_index([a]))
+            ax += a[0] in ("I", "S")
+            continue
+        n = shape[min(ax, len(shape) - 1)]
+        w = a[1]
+        if w in ("T", "F"):
+            out.append(w == "T")
+        elif w in ("nT", "nF"):
+            out.append(np.bool_(w == "nT"))
+        elif w == "mask":
+            out.append(np.arange(n) % 2 == 0); ax += 1
+        elif w == "lmask":
+            out.append([bool(i % 2 == 0) for i in range(n)]); ax += 1
+        elif w == "m01":
+            out.append([int(i % 2 == 0) for i in range(n)]); ax += 1
+        else:
+            out.append(np.arange(n) - 1.0 > 0); ax += 1
+    return out[0] if len(out) == 1 and atoms[0][0] == "B" else tuple(out)
+
+
+def run_xbool(self, c):
+    b = B()
+    img0, data0 = b.build_image(c["img"])
+    base = c["img"].get("base", 0)
+    snap = b.img_snapshot(img0)
+    idx = bool_index(c["atoms"], list(img0.shape))
+    fail, tag, ok = None, "xbool:refused", False
+    try:
+        res = img0[idx]
+    except Exception as e:   # noqa: BLE001 - every refusal of a boolean selector is legal
+        if type(e).__name__ not in b.LEGAL_REFUSALS + ("TypeError",):
+            fail = f"unexpected {type(e).__name__}: {e} for the boolean index {c['atoms']}"
+    else:
+        tag, ok = "xbool:accepted", True
+        if hasattr(res, "coordmap"):
+            fail = b.check_against_original(res, img0, data0, base, {nm: nm for nm in img0.reference.coord_names},
+                                            f"index {c['atoms']}")
+        else:
+            fail = check_array(res, data0, base, f"index {c['atoms']}")
+    if snap.changed():
+        fail = fail or f"indexing with {c['atoms']} changed the image ({snap.changed()})"
+    return {"lines": [], "impl": [], "oracle": fail, "nontrivial": ok and data0.size > 1,
+            "tags": ["xbool", tag, "bool=" + next(a[1] for a in c["atoms"] if a[0] == "B")], "mutated": None}
+
+
 RUNNERS = {"progx": run_progx, "acm": run_acm, "grid": run_grid, "fromshape": run_grid, "xyzaff": run_xyzaff,
-           "ornto": run_ornto, "rt": run_rt}
+           "ornto": run_ornto, "rt": run_rt, "xbool": run_xbool}
